@@ -299,7 +299,16 @@ pub fn build(
     let return_type = function
         .return_type
         .as_ref()
-        .and_then(|t| type_registry.resolve_grammar_type(scope, t));
+        .map(|t| {
+            type_registry.resolve_grammar_type(scope, t).ok_or_else(|| {
+                anyhow::anyhow!(
+                    "failed to resolve return type of function `{}` ({:?})",
+                    function.name,
+                    t
+                )
+            })
+        })
+        .transpose()?;
 
     let calling_convention = calling_convention.unwrap_or_else(|| {
         // Assume that if the function has a self argument, it's a thiscall function, otherwise it's "system"
